@@ -37,7 +37,7 @@ static rc::Gen<Op> gParam(bool bad) {
     auto grp = g::weightedOneOf<long long>({{2, g::just<long long>(0)}, {2, g::just<long long>(1)}, {1, g::just<long long>(2)}, {6, sized(3, 9)}});
     auto name = bad ? g::weightedOneOf<long long>({{12, sized(0, 14)}, {1, g::just<long long>(-1)}}) : sized(0, 14);
     auto type = bad ? g::weightedOneOf<long long>({{12, uni(0, 2)}, {1, g::just<long long>(3)}}) : uni(0, 2);
-    auto delta = bad ? g::weightedOneOf<long long>({{5, g::just<long long>(0)}, {2, g::elementOf(std::vector<long long>{-1, 1, 2, -2, 7})}, {1, g::just<long long>(-999999)}})
+    auto delta = bad ? g::weightedOneOf<long long>({{5, g::just<long long>(0)}, {2, g::elementOf(std::vector<long long>{-1, 1, 2, -2, 7})}, {1, g::just<long long>(-999999)}, {2, g::elementOf(std::vector<long long>{-888881, -888882, -888883})}})
                      : g::just<long long>(0);
     // nd == 0: delta is the element count
     auto nd = g::weightedOneOf<long long>({{4, g::just<long long>(0)}, {3, g::just<long long>(1)}, {3, g::just<long long>(2)}, {2, g::just<long long>(3)}, {2, uni(4, 7)}});
@@ -189,7 +189,7 @@ rc::Gen<std::vector<Op>> genScriptOpsFor(const std::string &id, int tier) {
 rc::Gen<Case> genScriptCase(const std::string &id, int tier) {
     if (id == "C11") {
         ScriptCfg c = cfgFor(id, tier); c.fillAtEnd = false; c.maxFrames = tier ? 12 : 6; c.callerReuse = false;
-        auto look = op("look", {uni(0, 12), uni(0, 5), sized(0, 400)});
+        auto look = op("look", {uni(0, 13), uni(0, 5), sized(0, 400)});
         auto scratch = concat({genScriptOps(c), ops(look, tier ? 60 : 30)});
         auto loaded = concat({genFileOpsFor(tier, true), one(op("load", {})), ops(look, tier ? 60 : 30)});     // byte-typed parameters, unlabeled points, events only exist in loaded files
         return asCase(g::oneOf(scratch, scratch, loaded));
